@@ -17,12 +17,16 @@
 #include <stdexcept>
 
 #include "../Util/TypeTraits.h"
+#include "../Util/VerifHooks.h"
 
 namespace Spectra {
 
 template <typename Scalar = double>
 class UpperHessenbergSchur
 {
+#ifdef SPECTRA_VERIF
+    friend struct ::SpectraVerifAccess;
+#endif
 private:
     using Index = Eigen::Index;
     using Matrix = Eigen::Matrix<Scalar, Eigen::Dynamic, Eigen::Dynamic>;
